@@ -25,7 +25,8 @@ def driver():
     return common.Model(_exe)
 
 
-def encode(accounts, msg, block=None, ctr=0, fuel=20000, mem_limit=MEM_LIMIT):
+def encode(accounts, msg, block=None, ctr=0, fuel=20000, mem_limit=MEM_LIMIT, c2names=None):
+    """c2names: {EVM address: name} -- the naming of CREATE2 addresses (Spec/Evm.v, b_c2names); None / {} = the EVM"""
     block = block or DEFAULT_BLOCK
     out = [mem_limit, fuel, ctr, len(accounts)]
     for a, acc in accounts.items():
@@ -44,6 +45,10 @@ def encode(accounts, msg, block=None, ctr=0, fuel=20000, mem_limit=MEM_LIMIT):
         out += [msg.get("code_addr", msg["this"])]
     data = msg.get("data", b"")
     out += [msg["caller"], msg["origin"], msg.get("value", 0), 1 if msg.get("static") else 0, msg.get("depth", 1), len(data)] + list(data)
+    names = c2names or {}
+    out += [len(names)]
+    for real, name in names.items():
+        out += [real, name]
     return out
 
 
@@ -113,8 +118,8 @@ def decode(res):
 
 
 def run_many(cases, fuel=20000):
-    """cases: list of (accounts, msg, block, ctr) -> list of decoded results"""
+    """cases: list of (accounts, msg, block, ctr[, c2names]) -> list of decoded results"""
     m = driver()
-    calls = [("evm_run", encode(acc, msg, blk, ctr, fuel)) for acc, msg, blk, ctr in cases]
+    calls = [("evm_run", encode(c[0], c[1], c[2], c[3], fuel, c2names=c[4] if len(c) > 4 else None)) for c in cases]
     res = m.parallel_batch(calls)
     return [decode(x) if x is not None else {"status": "model-error"} for x in res]
